@@ -171,6 +171,26 @@ func c14EvalVia(v []int) (string, string, bool) {
 	if problems != "" {
 		return "via-accessors", fmt.Sprintf("%q:%s", text, problems), true
 	}
+	// decode independence: what the proxy does to one decoded value (stamp the sender's address on
+	// the top entry, set a branch, consume the top entry) must not show in any other decode of the same text
+	d1, e1 := ParseVia(text)
+	d2, e2 := ParseVia(text)
+	if e1 == nil && e2 == nil {
+		if t0, err := d1.GetParam(0); err == nil {
+			t0.SetParam("rport", "4444")
+			t0.SetReceived("192.0.2.77")
+			t0.SetBranch("z9hG4bKindependence")
+		}
+		d1.PopViaParam()
+		d3, e3 := ParseVia(text)
+		if e3 != nil || d2.String() != enc || d3.String() != enc {
+			e3s := "<error>"
+			if e3 == nil {
+				e3s = d3.String()
+			}
+			return "via-decodes-share-state", fmt.Sprintf("%q decodes to %q; after another decode of the same text was stamped (rport, received, branch) and its top entry consumed, an earlier decode encodes as %q and a later decode as %q", text, enc, d2.String(), e3s), true
+		}
+	}
 	return "", "", true
 }
 
@@ -302,6 +322,23 @@ func c14EvalRoute(kind string) func(v []int) (string, string, bool) {
 		}
 		if enc2 != enc {
 			return kind + "-idempotence", fmt.Sprintf("%q -> %q -> %q", text, enc, enc2), true
+		}
+		if kind == "route" {
+			// decode independence: consuming entries of one decoded value must not show in another decode of the same text
+			r1, e1 := ParseRoute(text)
+			r2, e2 := ParseRoute(text)
+			if e1 == nil && e2 == nil {
+				r1.PopRouteParam()
+				r1.PopRouteParam()
+				r3, e3 := ParseRoute(text)
+				if e3 != nil || r2.String() != enc || r3.String() != enc {
+					e3s := "<error>"
+					if e3 == nil {
+						e3s = r3.String()
+					}
+					return "route-decodes-share-state", fmt.Sprintf("%q decodes to %q; after entries of another decode of the same text were consumed, an earlier decode encodes as %q and a later decode as %q", text, enc, r2.String(), e3s), true
+				}
+			}
 		}
 		return "", "", true
 	}
